@@ -175,7 +175,7 @@ PROPS['C12'] = dict(
           cls='bounded', tier='thorough', timeout=1200, bound='N=2, N=8'),
     ],
     trusted_base=VERUS_TRUST + CORE_TRUST,
-    assumptions=['buffer lengths <= 192 bytes in the allocator harnesses (the code is length-generic: no loop, pure pointer arithmetic)'],
+    assumptions=['A-KS-MONO (core_lwe_to_glwe:lwe_keyswitch_default): glwe_keyswitch_tmp_bytes does not decrease when its operands get more limbs', 'buffer lengths <= 192 bytes in the allocator harnesses (the code is length-generic: no loop, pure pointer arithmetic)'],
     remainder='(operation, *_tmp_bytes) pairs of the DFT family and of the core/bin-fhe/ckks layers; monotonicity of size queries',
 )
 
